@@ -148,6 +148,9 @@ def c04():
         j("c04_iter_destroy_3", Q, 200, "ecs_iter_destroy! drops exactly the flagged ones once"),
         j("c04_iter_destroy_2", T, 100, "ecs_iter_destroy! N=2"),
         j("c04_history", Q, 60, "public-API history without hooks (cross-check of the step argument)"),
+        J("c10_overflow_destroy_tokens_any_3", Q, 120, what="counter-overflow panic inside destroy: nothing dropped by the failed destroy; world owns every token exactly once afterwards (state at the panic point; natively after catch_unwind + world drop)",
+          bounds=b, assumes=a + STUBS, stubbing=True, role="overflow_mid_destroy"),
+        J("c10_overflow_destroy_tokens_typed_2", T, 100, what="same through Archetype::destroy(Entity)", bounds=b, assumes=a + STUBS, stubbing=True, role="overflow_mid_destroy"),
     ]
 
 
@@ -263,6 +266,7 @@ def c10():
         j("c10_overflow_point_witness_foo_3", Q, 60, "vacuity witness: both overflow points are reachable from Inv states", stubbing=True),
         j("c10_overflow_iter_destroy_foo_2", Q, 150, "state at the overflow panic in the middle of ecs_iter_destroy!", **ov),
         j("c10_overflow_iter_destroy_foo_3", T, 300, "same, N=3", **ov),
+        j("c10_overflow_destroy_tokens_any_3", T, 120, "same on Drop-counting token components (ownership after the caught panic)", **ov),
         j("c10_callbacks_clone_drop_3", Q, 200, "source world intact at every Clone::clone call; no token dropped twice at any Drop::drop call"),
         j("c10_callbacks_clone_drop_2", T, 100, "same, N=2"),
         j("c10_capacity_overflow_create", Q, 20, "create at the 2^24 limit panics before touching anything", expect_fail=(("capacity overflow", "push"),)),
